@@ -760,7 +760,12 @@ class Runner:
                 out, err, _ = raw_call(routine, W, freq, order, cov, rtol, deltaf)
             self.ctx.count(dict(case, site=site, order=order, cov=cov, presentation=str(how)), nontrivial=True)
             self.ctx.hist("presentation", kind)
-            if not same_out((out, err), ref):
+            if kind == "forms" and err in ("TypeError", "ValueError") and ref[1] != err:
+                # a NumPy scalar / 0-d array / nested-array form of a value refused by input validation while the plain Python form is accepted (or fails later, otherwise):
+                # the property does not say which exotic spellings of a number must be accepted - only that an accepted one means the same
+                self.ctx.hist("presentation", "forms: refused by input validation")
+                self.ctx.not_judged += 1
+            elif not same_out((out, err), ref):
                 self.ctx.fail("oracle", "%s(order=%s) with %s returns %s; %s it returns %s"
                               % (site, order, how, (getattr(call, "last", err) if err else brief((out, err))),
                                  "called with keywords and the same values" if kind == "pos" else "with writable float64 tables and Python scalars", brief(ref)),
@@ -977,6 +982,30 @@ class Runner:
                             ctx.fail("correspondence", "harness self-check: NumPy oracle and plscf_find_min_conforming disagree (model %s, oracle %s)" % (mod[1:], runs),
                                      case, key="C11:selfcheck:oracle-vs-conforming-model")
 
+    @staticmethod
+    def exact_tie(case, ids, mi):
+        """the implementation's cell(s) and the model's cell lie in the same order column and are EXACTLY equally far from a requested
+        frequency (duplicate frequencies in a column, or one pole on either side of the request at the same distance)"""
+        try:
+            Fn = case["Fn"]
+            m = len(Fn[0])
+            col = mi % m
+            fm = Fn[mi // m][col]
+            if fm is None or not ids:
+                return False
+            for i in ids:
+                i = int(i)
+                if i % m != col:
+                    return False
+                fi = Fn[i // m][col]
+                if fi is None:
+                    return False
+                if not (fi == fm or any(abs(fi - r) == abs(fm - r) for r in case.get("freq", []))):
+                    return False
+            return True
+        except Exception:
+            return False
+
     def cmp(self, site, order, mod, impl, case, nreq):
         ctx = self.ctx
         what = None
@@ -985,8 +1014,16 @@ class Runner:
                 what = "model %s, implementation %s" % (mod[:2], impl[:2])
         else:
             mo = mod[2][:nreq] if isinstance(order, list) else mod[2]
-            if (impl[1] is None or len(impl[1]) != len(mod[1])
-                    or any(v != mv or mi not in ids for (v, ids), (mv, mi) in zip(impl[1], mod[1]))):
+            if impl[1] is not None and len(impl[1]) == len(mod[1]):
+                pairs = []
+                for (v, ids), (mv, mi) in zip(impl[1], mod[1]):
+                    if (v != mv or mi not in ids) and self.exact_tie(case, ids, mi):
+                        ctx.not_judged += 1   # two retained poles of the order exactly equally close: the property leaves the choice open
+                        continue
+                    pairs.append(((v, ids), (mv, mi)))
+            else:
+                pairs = None
+            if pairs is None or any(v != mv or mi not in ids for (v, ids), (mv, mi) in pairs):
                 what = "returned (frequency, cell) pairs differ: model %s, implementation %s" % (
                     [(str(v), i) for v, i in mod[1]], None if impl[1] is None else [(str(v), sorted(i)) for v, i in impl[1]])
             elif impl[2] != mo:
@@ -1359,7 +1396,10 @@ class ClassRunner(Runner):
                 got = self.class_mpe(ss, alg.name, alg, is_ssi, freq, order, rtol)
             ctx.count(dict(case, order=order, presentation=str(how)), nontrivial=True)
             ctx.hist("presentation", "%s (class)" % kind)
-            if not same_out(got, ref):
+            if kind == "forms" and got[1] in ("TypeError", "ValueError", "ValidationError") and ref[1] != got[1]:
+                ctx.hist("presentation", "forms (class): refused by input validation")
+                ctx.not_judged += 1
+            elif not same_out(got, ref):
                 ctx.fail("oracle", "%s.mpe(order=%s) with %s returns %s; %s it returns %s"
                          % (name, order, how, (getattr(call, "last", got[1]) if got[1] else brief(got)),
                             "called with keywords and the same values" if kind == "pos" else "with writable float64 tables and Python scalars", brief(ref)),
@@ -1517,7 +1557,7 @@ class ClassRunner(Runner):
             if [None if x != x else fq(x) for x in FnS] != fracs(Fn_m):
                 bad.append("result.Fn=%s (model %s)" % (FnS.tolist(), Fn_m))
             for fld, key, tag, vec, txt in (("Xi", "Xi", 1, False, Xi_m), ("Phi", "Phi", 2, True, Phi_m)):
-                if not self.field_ok(txt, snap[fld], tb[key], tag, vec):
+                if not self.field_ok(txt, snap[fld], tb[key], tag, vec, tb.get("Fn"), freq):
                     bad.append("result.%s is not the content of the cells %s of %s_poles" % (fld, [int(x) % 1000 for x in txt.split()], fld))
             oo_mod = [] if oo_m == "N" else [int(oo_m[2:])] if oo_m.startswith("I ") else [int(x) for x in oo_m[1:].split()]
             if isinstance(order, list):
@@ -1530,7 +1570,7 @@ class ClassRunner(Runner):
                     bad.append("covariances stored although the object has no covariance tables")
             else:
                 for c, key, tag, vec, txt in zip(cv, ("Fn_cov", "Xi_cov", "Phi_cov"), (3, 4, 5), (False, False, True), cov_m.split(";")):
-                    if c is None or tb.get(key) is None or not self.field_ok(txt, c, tb[key], tag, vec):
+                    if c is None or tb.get(key) is None or not self.field_ok(txt, c, tb[key], tag, vec, tb.get("Fn"), freq):
                         bad.append("result.%s is not the content of the cells %s of %s" % (key, [int(x) % 1000 for x in txt.split()], key.replace("_cov", "_poles_cov")))
         except Exception as e:  # noqa: BLE001
             bad.append("stored object could not be read: %s: %s" % (type(e).__name__, str(e)[:120]))
@@ -1539,7 +1579,9 @@ class ClassRunner(Runner):
                      % (name, order if not isinstance(order, list) else "list", "; ".join(bad)), case, key="C11:%s.mpe:corr-stored" % name)
 
     @staticmethod
-    def field_ok(txt, arr, table, tag, vec):
+    def field_ok(txt, arr, table, tag, vec, Fn=None, freq=()):
+        """the stored values are the content of the model's cells - or, where two retained poles of the order are EXACTLY equally close to a
+        request (duplicate frequencies in a column, equal distances on either side), of the other such cell: the property leaves that choice open"""
         ids = [int(x) for x in txt.split()]
         a = np.asarray(arr)
         if vec:
@@ -1556,7 +1598,18 @@ class ClassRunner(Runner):
         n, m = table.shape[:2]
         for v, i in zip(comps, ids):
             r, c = divmod(i % 1000, m)
-            if i // 1000 != tag or r >= n or not eqv(table[r, c], v):
+            if i // 1000 != tag or r >= n:
+                return False
+            if eqv(table[r, c], v):
+                continue
+            alt = False
+            if Fn is not None and np.shape(Fn)[:2] == (n, m) and Fn[r, c] == Fn[r, c]:
+                for r2 in range(n):
+                    f2, f1 = Fn[r2, c], Fn[r, c]
+                    if r2 != r and f2 == f2 and (f2 == f1 or any(abs(float(f2) - float(q)) == abs(float(f1) - float(q)) for q in freq)) and eqv(table[r2, c], v):
+                        alt = True
+                        break
+            if not alt:
                 return False
         return True
 
